@@ -1,11 +1,16 @@
 import Pxv.Lemmas.SessionRefine
+import Pxv.Lemmas.SessionCarry
 /-!
 C12 — session cookies are never emitted unprotected and never leak the id.
 
 Property theorems only, about `finalizeSession` (middleware.rs), the cookie built by `finalize`
 (session_.rs), what `ResponseCookies` holds afterwards (`respond`), the processor's outgoing
-treatment (`outgoingAlg`) and the `Debug` view. Theorems 1–3, 7 hold for *every* session state and
-store, hence after every operation history and under every configuration.
+treatment (`outgoingAlg`) and the `Debug` view. Theorems 1–3, 7, 8 hold for *every* session state and
+store, hence after every operation history and under every configuration — where the processor is a
+parameter of each *request* (`Req.crypto`, `ReqOut.cfg`): the crypto configuration may change between
+the requests of a history (key / algorithm rotation with fallbacks), the cookie a request presents
+may have been written under another configuration and read through a fallback (`accept`), or the
+incoming session may be assembled by hand (`Src.parts`, `IncomingSession::from_parts`).
 -/
 set_option linter.unusedSectionVars false
 namespace Pxv.Session
@@ -159,18 +164,32 @@ theorem wire_protected_statement_false : ¬ wire_protected_statement := by
 theorem wire_protected_partial (cfg : Config)
     (hname : cfg.crypto.percentEncode = false ∨ pctEncode cfg.cookie.name = cfg.cookie.name) :
     (willEncrypt cfg = true → outgoingAlg cfg = .encrypt) ∧ (willSign cfg = true → outgoingAlg cfg = .sign) := by
-  have hw : (if cfg.crypto.percentEncode = true then pctEncode cfg.cookie.name else cfg.cookie.name) = cfg.cookie.name := by
+  have hw : wireName cfg = cfg.cookie.name := by
+    unfold wireName
     cases hname with
     | inl h => simp [h]
     | inr h => simp [h]
   constructor <;> intro h <;> simp [willEncrypt, willSign] at h <;> simp [outgoingAlg, hw, h]
 
-/-- **C12 (7), every history**: in every history, every response that carries a session cookie
-    satisfies (1) and (2). -/
+/-- Every response of a history was produced under the processor of *its* request. -/
+theorem history_cfgs (cfg : Config) (reqs : List (Req κ ν)) (c : Client κ ν) (w : World κ ν) :
+    (runHistory cfg reqs c w).map (·.cfg) = reqs.map (fun rq => reqCfg cfg rq.crypto) := by
+  induction reqs generalizing c w with
+  | nil => rfl
+  | cons rq rest ih =>
+    simp only [runHistory, List.map_cons]
+    congr 1
+    exact ih _ _
+
+/-- **C12 (7), every history, the processor may change from request to request**: in every
+    history, every response that carries a session cookie satisfies (1) and (2) with respect to the
+    processor in force for that request (`o.cfg`) — whatever processor wrote the cookie the request
+    came in with, whether it was read through a fallback, and whether the incoming session was
+    assembled by hand. -/
 theorem every_cookie_protected (cfg : Config) (reqs : List (Req κ ν)) (c : Client κ ν) (w : World κ ν) :
     ∀ o ∈ runHistory cfg reqs c w,
-      (((∃ id cl, o.fin = .set id cl) ∨ o.fin = .removal) → (willSign cfg = true ∨ willEncrypt cfg = true)) ∧
-      (∀ id cl, o.fin = .set id cl → cl ≠ [] → willEncrypt cfg = true) := by
+      (((∃ id cl, o.fin = .set id cl) ∨ o.fin = .removal) → (willSign o.cfg = true ∨ willEncrypt o.cfg = true)) ∧
+      (∀ id cl, o.fin = .set id cl → cl ≠ [] → willEncrypt o.cfg = true) := by
   induction reqs generalizing c w with
   | nil => intro o ho; simp [runHistory] at ho
   | cons rq rest ih =>
@@ -181,24 +200,94 @@ theorem every_cookie_protected (cfg : Config) (reqs : List (Req κ ν)) (c : Cli
     | inl h =>
       subst h
       simp only
-      generalize presented c rq.src = pres
+      generalize reqCfg cfg rq.crypto = cfg'
+      generalize presented cfg' c rq.src = pres
       generalize ({ (if rq.expire = true then expire pres w else w) with log := [] } : World κ ν) = w2
       unfold runRequest
       generalize newSession pres w2 = p
       obtain ⟨s0, w0⟩ := p
       simp only
-      generalize runOps cfg rq.rem rq.ops s0 w0 = m
+      generalize runOps cfg' rq.rem rq.ops s0 w0 = m
       obtain ⟨rs, so, w1⟩ := m
       cases so with
       | none => simp
       | some s1 =>
         simp only
-        cases hf : finalizeSession cfg s1 w1 with
+        cases hf : finalizeSession cfg' s1 w1 with
         | mk f q =>
           obtain ⟨s2, w2'⟩ := q
           simp only
-          exact ⟨cookie_protected cfg s1 s2 w1 w2' f hf, fun id cl e => by
-            subst e; exact client_state_encrypted cfg s1 s2 w1 w2' id cl hf⟩
+          exact ⟨cookie_protected cfg' s1 s2 w1 w2' f hf, fun id cl e => by
+            subst e; exact client_state_encrypted cfg' s1 s2 w1 w2' id cl hf⟩
+
+/-- **C12 (8), no downgrade**: a session whose client-side state is not empty — no matter whether
+    this request modified it or merely carried it over from the incoming cookie — never gets a
+    value cookie from a processor that does not encrypt. -/
+theorem client_state_never_downgraded (cfg : Config) (s s' : Sess κ ν) (w w' : World κ ν) (f : Fin κ ν)
+    (h : finalizeSession cfg s w = (f, s', w')) (hne : s.client.state ≠ []) (hw : willEncrypt cfg = false) :
+    ∀ id c, f ≠ .set id c := by
+  intro id c e
+  subst e
+  have h0 := finalizeSession_set cfg s s' w w' id c h
+  obtain ⟨e1, _⟩ := finalize_set_client cfg s s' w w' id c h0
+  have := client_state_encrypted cfg s s' w w' id c h (by rw [e1]; exact hne)
+  rw [hw] at this
+  exact absurd this (by decide)
+
+/-- **C12 (9), on the wire, partial**: in every history, every cookie handed to the client is
+    really signed or encrypted, and really encrypted if it carries client-side state — for the
+    requests whose processor does not alter the cookie name by percent-encoding (finding C12-N1). -/
+theorem every_token_protected_partial (cfg : Config) (reqs : List (Req κ ν)) (c : Client κ ν) (w : World κ ν) :
+    ∀ o ∈ runHistory cfg reqs c w, ∀ t, issuedBy o.cfg o.fin = some t →
+      (o.cfg.crypto.percentEncode = false ∨ pctEncode o.cfg.cookie.name = o.cfg.cookie.name) →
+      t.prot ≠ .none ∧ (t.client ≠ [] → t.prot = .encrypt) := by
+  intro o ho t ht hname
+  obtain ⟨p1, p2⟩ := every_cookie_protected cfg reqs c w o ho
+  obtain ⟨q1, q2⟩ := wire_protected_partial o.cfg hname
+  cases hf : o.fin with
+  | set id cl =>
+    rw [hf] at ht p1 p2
+    simp only [issuedBy, Option.some.injEq] at ht
+    subst ht
+    simp only [issue]
+    refine ⟨?_, fun hcl => q1 (p2 id cl rfl hcl)⟩
+    cases p1 (Or.inl ⟨id, cl, rfl⟩) with
+    | inl hs => rw [q2 hs]; decide
+    | inr he => rw [q1 he]; decide
+  | removal => rw [hf] at ht; simp [issuedBy] at ht
+  | none => rw [hf] at ht; simp [issuedBy] at ht
+  | err e => rw [hf] at ht; simp [issuedBy] at ht
+  | panic => rw [hf] at ht; simp [issuedBy] at ht
+
+/-- **Rotation keeps the cookies that are out there readable** (so that the situations (7)–(9)
+    quantify over do arise): a protected cookie written under `cfgA` is read by a processor
+    `cfgB` for the same cookie name exactly as `cfgA` itself reads it, provided `cfgB`'s rule still
+    lists `cfgA`'s primary (algorithm, key) — as its own primary or as a fallback. -/
+theorem rotation_keeps_cookies_readable (cfgA cfgB : Config) (id : Nat) (cl : Map κ ν)
+    (hck : cfgB.cookie = cfgA.cookie) (hrn : cfgB.crypto.ruleName = cfgA.crypto.ruleName)
+    (hpe : cfgB.crypto.percentEncode = cfgA.crypto.percentEncode) (hB : cfgB.crypto.alg ≠ .none)
+    (hA : outgoingAlg cfgA ≠ .none)
+    (hmem : (cfgA.crypto.alg, cfgA.crypto.key) ∈ (cfgB.crypto.alg, cfgB.crypto.key) :: cfgB.crypto.fallbacks) :
+    accept cfgB (issue cfgA id cl) = accept cfgA (issue cfgA id cl) := by
+  have hA' : cfgA.crypto.alg ≠ .none ∧ cfgA.crypto.ruleName = wireName cfgA := by
+    unfold outgoingAlg at hA
+    by_cases h : cfgA.crypto.alg ≠ .none ∧ cfgA.crypto.ruleName = wireName cfgA
+    · exact h
+    · simp [h] at hA
+  have ho : outgoingAlg cfgA = cfgA.crypto.alg := by simp [outgoingAlg, hA'.1, hA'.2.symm]
+  have vB : valueReadable cfgB.crypto (issue cfgA id cl) = true := by
+    have hr : ruleFor cfgB.crypto (wireName cfgA) = some ((cfgB.crypto.alg, cfgB.crypto.key) :: cfgB.crypto.fallbacks) := by
+      simp [ruleFor, hB, hrn, hA'.2]
+    simp only [valueReadable, issue, hr, ho]
+    simp only [Bool.and_eq_true, bne_iff_ne, ne_eq, List.any_eq_true]
+    exact ⟨hA'.1, (cfgA.crypto.alg, cfgA.crypto.key), hmem, by simp⟩
+  have vA : valueReadable cfgA.crypto (issue cfgA id cl) = true := by
+    have hr : ruleFor cfgA.crypto (wireName cfgA) = some ((cfgA.crypto.alg, cfgA.crypto.key) :: cfgA.crypto.fallbacks) := by
+      simp [ruleFor, hA'.1, hA'.2]
+    simp only [valueReadable, issue, hr, ho]
+    simp only [Bool.and_eq_true, bne_iff_ne, ne_eq, List.any_eq_true]
+    exact ⟨hA'.1, (cfgA.crypto.alg, cfgA.crypto.key), List.mem_cons_self, by simp⟩
+  simp only [accept, vA, vB, readName, hpe, hck]
 
 def exCookie : CookieCfg :=
   { name := "id", domain := none, path := some "/", secure := true, httpOnly := true, sameSite := some .lax, kind := .persistent }
@@ -218,5 +307,44 @@ example : (finalizeSession exCfgSign (⟨.newlyGenerated 0, some (.changed [(1, 
     ⟨[], 1, []⟩).1 = .err .encryptionRequired := by decide
 example : (finalizeSession exCfgNone (⟨.newlyGenerated 0, some (.changed [(1, 2)]), .unchanged [], false⟩ : Sess Nat Nat)
     ⟨[], 1, []⟩).1 = .err .cryptoRequired := by decide
+
+
+/-! Rotation and hand-made incoming sessions do arise (non-vacuity of (7)–(9) for the extended
+    histories). -/
+
+def exEncOld : Crypto := { alg := .encrypt, ruleName := "id", percentEncode := true, key := 1 }
+/-- signing is the new primary, the old encryption key is kept as a fallback -/
+def exSignNew : Crypto := { alg := .sign, ruleName := "id", percentEncode := true, key := 2, fallbacks := [(.encrypt, 1)] }
+def exEncNew : Crypto := { alg := .encrypt, ruleName := "id", percentEncode := true, key := 3, fallbacks := [(.encrypt, 1)] }
+
+/-- Request 0 (old processor, encryption) stores client-side state; request 1 runs under the rotated
+    processor (signing, old key as fallback), reads the session through the fallback, does not touch
+    the client-side state — and is refused: the state would go out signed only. -/
+example : (runHistory exCfgEnc
+      [⟨.jar, false, 100, [.cInsert 3 4], some exEncOld⟩, ⟨.jar, false, 100, [.cGet 3, .insert 1 2], some exSignNew⟩]
+      (Client.init : Client Nat Nat) World.init).map (fun o => (o.incoming, o.res, o.fin)) =
+    [(none, [.val none], .set 0 [(3, 4)]), (some 0, [.val (some 4), .val none], .err .encryptionRequired)] := by
+  decide +kernel
+
+/-- Key rotation within encryption: read through the fallback, re-issued under the new key. -/
+example : (runHistory exCfgEnc
+      [⟨.jar, false, 100, [.cInsert 3 4], some exEncOld⟩, ⟨.jar, false, 100, [.cGet 3], some exEncNew⟩,
+       ⟨.jar, false, 100, [.cGet 3], some exEncOld⟩]
+      (Client.init : Client Nat Nat) World.init).map (fun o => (o.incoming, o.res, o.fin)) =
+    [(none, [.val none], .set 0 [(3, 4)]), (some 0, [.val (some 4)], .set 0 [(3, 4)]),
+     -- the old processor does not know the new key: the cookie is skipped, a new session starts
+     (none, [.val none], .none)] := by
+  decide +kernel
+
+/-- `IncomingSession::from_parts`: a hand-made incoming session with client-side state, under a
+    signing-only processor, with no client-side operation at all. -/
+example : (runHistory exCfgSign
+      [⟨.jar, false, 100, [.insert 1 2], none⟩, ⟨.parts 0 [(3, 4)], false, 100, [.get 1], none⟩]
+      (Client.init : Client Nat Nat) World.init).map (fun o => (o.incoming, o.res, o.fin)) =
+    [(none, [.val none], .set 0 []), (some 0, [.val (some 2)], .err .encryptionRequired)] := by
+  decide +kernel
+
+example : accept (reqCfg exCfgEnc (some exSignNew)) (issue (reqCfg exCfgEnc (some exEncOld)) 0 [(3, 4)] : Token Nat Nat)
+    = some (0, [(3, 4)]) := by decide +kernel
 
 end Pxv.Session
